@@ -31,4 +31,4 @@ for p in "$@"; do
   else res="$res $p:inconclusive"; tail -5 "$out/$p.log"; fi
 done
 echo "MUTANT $id:$res"
-rm -rf "$scratch" "$out" /verif/.work/props-mut$$.test /verif/.work/props-race-mut$$.test
+rm -rf "$scratch" "$out" /verif/.work/props-mut$$.test /verif/.work/props-race-mut$$.test /verif/.work/run-mut$$
